@@ -127,11 +127,12 @@ func Releasing() bool { return rcur != nil && rcur.aborted }
 
 // Config bounds one exploration.
 type Config struct {
-	MaxPreempt     int // preemption bound (thread switches away from an enabled thread)
-	SelectCost     int // cost charged for taking a non-default ready select case (0 = free)
-	ValueCost      int // cost charged for a non-default Choose alternative
-	MaxSteps       int // per-execution step limit (default 100000)
-	MaxExecs       int // 0 = unlimited
+	MaxPreempt     int           // preemption bound (thread switches away from an enabled thread)
+	SelectCost     int           // cost charged for taking a non-default ready select case (0 = free)
+	ValueCost      int           // cost charged for a non-default Choose alternative
+	MaxSteps       int           // per-execution step limit (default 100000)
+	MaxExecs       int           // 0 = unlimited
+	ExecTimeout    time.Duration // wall-clock watchdog for one execution (default 60 s); see RunOnce
 	Deadline       time.Time
 	Shard, NShard  int
 	Trace          bool
@@ -528,8 +529,27 @@ func RunOnce(cfg Config, prefix []int, body func()) *Exec {
 		defer r.threadExit(main)
 		body()
 	}()
-	<-r.finished
-	r.wg.Wait()
+	// Watchdog: between two scheduling points a thread runs code under test without the scheduler's control.  Code
+	// that spins there (a loop whose exit condition a broken invariant made unreachable) never yields, and no step
+	// limit can see it.  If the execution has not ended after ExecTimeout of wall time it is abandoned with outcome
+	// "hang": its goroutines are left behind (they cannot be killed), the shims stop serving them, and Explore refuses
+	// to start further executions in this process.
+	timeout := cfg.ExecTimeout
+	if timeout == 0 {
+		timeout = 60 * time.Second
+	}
+	select {
+	case <-r.finished:
+		r.wg.Wait()
+	case <-time.After(timeout):
+		cur := "?"
+		if c := r.cur; c != nil {
+			cur = fmt.Sprintf("T%d(%s)", c.id, c.name)
+		}
+		r.outcome = Outcome{"hang", fmt.Sprintf("the execution did not end within %s of wall time after %d scheduling steps: thread %s has not reached a scheduling point (it spins or blocks in code the scheduler does not control)", timeout, r.steps, cur)}
+		r.aborted = true
+		Hung = true
+	}
 	rcur = nil
 	x := &Exec{Choices: r.Choices, Points: r.Points, Outcome: r.outcome, Trace: r.Trace, Steps: r.steps, Races: r.races, Leaked: r.leaked}
 	lastStates = r.stateH
@@ -537,6 +557,10 @@ func RunOnce(cfg Config, prefix []int, body func()) *Exec {
 }
 
 var lastStates map[uint64]struct{}
+
+// Hung is set once an execution of this process had to be abandoned by the watchdog: a goroutine of the code under
+// test is still running (and burning a CPU); nothing explored afterwards in this process is reliable.
+var Hung bool
 
 // ---------------------------------------------------------------------------
 // explorer
@@ -572,6 +596,10 @@ func Explore(cfg Config, body func(), check func(x *Exec) bool) Stats {
 		if stop {
 			return
 		}
+		if Hung {
+			st.Complete, st.StoppedBy, stop = false, "hang (an earlier execution of this process never ended)", true
+			return
+		}
 		if cfg.MaxExecs > 0 && st.Execs >= cfg.MaxExecs {
 			st.Complete, st.StoppedBy, stop = false, "max-execs", true
 			return
@@ -600,6 +628,10 @@ func Explore(cfg Config, body func(), check func(x *Exec) bool) Stats {
 			}
 		}
 		if x.Outcome.Kind == "diverged" {
+			return
+		}
+		if x.Outcome.Kind == "hang" {
+			st.Complete, st.StoppedBy, stop = false, "hang", true
 			return
 		}
 		// cost of the prefix part is `cost`; walk the suffix
